@@ -16,6 +16,7 @@ mod ex;
 mod abi;
 mod its;
 mod itsgen;
+mod matrix;
 
 use common::*;
 use std::io::Write;
@@ -138,6 +139,8 @@ fn main() {
                 "C15" => up::gen_c15(&mut run, seed, thorough),
                 "C16" => ex::gen_c16(&mut run, seed, thorough),
                 "C10" => abi::gen_c10(&mut run, seed, thorough),
+                "C06" => matrix::gen_c06(&mut run, seed, thorough),
+                "C07" => matrix::gen_c07(&mut run, seed, thorough),
                 "C04" => itsgen::gen_c04(&mut run, seed, thorough),
                 "C05" => itsgen::gen_c05(&mut run, seed, thorough),
                 "C11" => itsgen::gen_c11(&mut run, seed, thorough),
